@@ -10,6 +10,7 @@ import (
 	"encoding/json"
 	"fmt"
 	"net/http"
+	"sort"
 	"strings"
 	"time"
 
@@ -237,6 +238,15 @@ func gridRequests() []Req {
 
 var c11Grid = gridRequests()
 
+func sortedKeys(h http.Header) []string {
+	ks := make([]string, 0, len(h))
+	for k := range h {
+		ks = append(ks, k)
+	}
+	sort.Strings(ks)
+	return ks
+}
+
 func hvEqual(a, b []string) bool {
 	if len(a) != len(b) {
 		return false
@@ -418,7 +428,8 @@ func c11Case(m *cors.Middleware, configured bool, q Req, preset []HV, sc Script,
 			return &Violation{Class: "passthrough-not-identity", Key: "headers", Detail: ctxs() + fmt.Sprintf(": pre-set %s, handler saw %s", b, a)}
 		}
 	} else {
-		for k, want := range presetMap {
+		for _, k := range sortedKeys(presetMap) {
+			want := presetMap[k]
 			got, ok := h.entry[k]
 			switch k {
 			case "Vary":
@@ -433,7 +444,8 @@ func c11Case(m *cors.Middleware, configured bool, q Req, preset []HV, sc Script,
 				}
 			}
 		}
-		for k, got := range h.entry {
+		for _, k := range sortedKeys(h.entry) {
+			got := h.entry[k]
 			if _, ok := presetMap[k]; ok {
 				continue
 			}
